@@ -27,6 +27,7 @@ import (
 type prodConsts struct {
 	GenesisTime     int64
 	GenesisExpected int64
+	LocalZoneOffset int
 	Server          struct {
 		ReportMigrationFrequency time.Duration
 		TestMode                 bool
@@ -445,6 +446,66 @@ func init() {
 			}
 		} else {
 			run.Violation("current-timeslot-panics", err.Error())
+		}
+		// the same constants and clock-following in processes whose local time zone is not UTC (genesis is an absolute
+		// instant; Go fixes the local zone before package initialisation, hence fresh processes)
+		{
+			zoneFile := func(offsetSeconds int32, name string) []byte {
+				b := append([]byte("TZif"), 0)
+				b = append(b, make([]byte, 15)...)
+				for _, c := range []uint32{0, 0, 0, 0, 1, uint32(len(name) + 1)} {
+					b = binary.BigEndian.AppendUint32(b, c)
+				}
+				b = binary.BigEndian.AppendUint32(b, uint32(offsetSeconds))
+				b = append(b, 0, 0)
+				b = append(b, name...)
+				return append(b, 0)
+			}
+			dir := freshDir("tz")
+			var zones []string
+			for _, z := range []struct {
+				name string
+				off  int32
+			}{{"UTCp9", 9 * 3600}, {"UTCm5", -5 * 3600}, {"UTCp0545", 5*3600 + 45*60}, {"UTCm0930", -(9*3600 + 30*60)}} {
+				path := filepath.Join(dir, z.name)
+				must(os.WriteFile(path, zoneFile(z.off, z.name), 0644))
+				env := append(os.Environ(), "TZ="+path)
+				bin := filepath.Join(filepath.Dir(os.Args[0]), "vprod")
+				cmd := exec.Command(bin, "consts")
+				cmd.Env = env
+				o, err := cmd.Output()
+				var zc prodConsts
+				if err != nil || json.Unmarshal(o, &zc) != nil {
+					fmt.Println("HARNESS ERROR: vprod consts under TZ", z.name, err)
+					run.Count("harness_errors", 1)
+					continue
+				}
+				if zc.LocalZoneOffset != int(z.off) {
+					fmt.Println("HARNESS ERROR: the child did not run in zone", z.name, "but at offset", zc.LocalZoneOffset)
+					run.Count("harness_errors", 1)
+					continue
+				}
+				tsEvals++
+				zones = append(zones, z.name)
+				if zc.GenesisTime != 1700352000 {
+					run.Violation("production-genesis-depends-on-host-time-zone", map[string]interface{}{"zone_offset_seconds": z.off, "genesis": zc.GenesisTime, "expected": 1700352000})
+				}
+				cmd = exec.Command(bin, "current")
+				cmd.Env = env
+				if o, err := cmd.Output(); err == nil {
+					var r struct {
+						Evaluations int64
+						Violations  []string
+					}
+					json.Unmarshal(o, &r)
+					tsEvals += r.Evaluations
+					for _, v := range r.Violations {
+						run.Violation("current-timeslot-does-not-follow-clock/in-zone-"+z.name, v)
+					}
+				}
+			}
+			os.RemoveAll(dir)
+			run.Coverage["host_time_zones_checked"] = zones
 		}
 		run.Coverage["timeslot_conversions_checked"] = tsEvals
 		run.Coverage["timeslots_covered"] = slots
